@@ -68,6 +68,9 @@ func mkRequest(i int) *http.Request {
 	methods := []string{"GET", "POST", "PUT", "DELETE"}
 	r := httptest.NewRequest(methods[i%4], fmt.Sprintf("http://host%d.example:80%d/path/%d?q=%d", i, i, i, i), nil)
 	r.RemoteAddr = fmt.Sprintf("10.0.0.%d:%d", i, 4000+i)
+	if i%3 == 0 {
+		r.RemoteAddr = fmt.Sprintf("[2001:db8::%d]:%d", i, 4000+i) // IPv6 literal: the host part is between brackets
+	}
 	r.Header.Set("User-Agent", fmt.Sprintf("agent/%d", i))
 	r.Header.Set("Referer", fmt.Sprintf("http://ref/%d", i))
 	r.Header.Set("X-Custom", fmt.Sprintf("custom-%d", i))
@@ -100,6 +103,12 @@ func handlerOf(k, key string, r *http.Request) (func(http.Handler) http.Handler,
 		return hlog.CustomHeaderHandler(key, "X-Custom"), r.Header.Get("X-Custom")
 	case "host":
 		return hlog.HostHandler(key), r.Host
+	case "hosttrim":
+		hst := r.Host
+		if h, _, err := net.SplitHostPort(r.Host); err == nil {
+			hst = h
+		}
+		return hlog.HostHandler(key, true), hst
 	case "httpversion":
 		return hlog.HTTPVersionHandler(key), strings.TrimPrefix(r.Proto, "HTTP/")
 	case "requestid":
